@@ -113,7 +113,7 @@ def generate(rng):
     sparse = bool(info.get("sparse"))
     categorical = bool(info.get("categorical"))
     kinds = [("fit", 4), ("fit_predict", 1), ("predict", 1.5), ("score", 1.5), ("set_params", 1.5), ("roundtrip", 0.7),
-             ("badparam_fit", 1), ("malformed_fit", 1)]
+             ("badparam_fit", 1), ("malformed_fit", 1), ("mutate_data", 1)]
     if not is_kauri:
         kinds += [("predict_proba", 1), ("crash_fit", 2)]
     if not deco:
@@ -126,9 +126,18 @@ def generate(rng):
     last_ds = None
     for _ in range(rng.randint(1, 8) if rng.random() < 0.9 else rng.randint(8, 14)):
         k = weighted(rng, kinds)
+        if ops and ops[-1]["op"] in ("set_params", "mutate_data", "crash_fit", "malformed_fit") and last_ds is not None and rng.random() < 0.5:
+            k = "fit"          # the classic sequence: change something, then fit the SAME array object again
         op = {"op": k}
+        if k == "mutate_data":
+            op["data"] = last_ds if (last_ds is not None and rng.random() < 0.7) else rng.randrange(3)
+            op["how"] = choice(rng, ["scale", "shift", "reverse_rows"])
+            ops.append(op)
+            continue
         if k in ("fit", "fit_predict", "path", "crash_fit", "crash_path", "nan_path", "badparam_fit", "malformed_fit", "other_fit"):
             op["data"] = rng.randrange(3)
+            if k == "fit" and ops and ops[-1]["op"] in ("set_params", "mutate_data", "crash_fit", "malformed_fit") and last_ds is not None:
+                op["data"] = last_ds
             last_ds = op["data"] if k in ("fit", "fit_predict", "path") else last_ds
         if k in ("fit", "fit_predict", "score") and uses_precomputed_any(cfg) and rng.random() < 0.3:
             op["no_affinity"] = True      # the precomputed matrix is not passed (Kauri: documented linear fallback; others: rejected)
@@ -270,7 +279,13 @@ def isolated_execution(payload):
     cfg, params, which, kind, args = payload["cfg"], payload["params"], payload["which"], payload["kind"], payload["args"]
     c = dict(cfg)
     c["params"] = params
-    X, A = dataset(cfg, which)
+    if payload.get("X_values") is not None:
+        # the caller's array as it is NOW (the user may have changed its contents since it was generated), same layout
+        lay = payload.get("layout", "C")
+        X = apply_layout(np.array(payload["X_values"], copy=True), "C" if lay == "int" else lay)[0]
+        A = None if payload.get("A_values") is None else np.array(payload["A_values"], copy=True)
+    else:
+        X, A = dataset(cfg, which)
     if payload.get("no_affinity"):
         A = None
     if cfg["family"] == "Kauri":
@@ -493,6 +508,28 @@ def execute(record):
                                 res.violate(f"C12:clone_roundtrip:{k}", {"how": "clone"})
                         model = new
                         harness_for(model)
+                    elif kind == "mutate_data":
+                        # the USER changes the contents of his own array between two calls (same object, other values)
+                        i = op["data"]
+                        Xc, Ac = pool[i]
+                        if Xc.flags.writeable and Xc.dtype.kind == "f":
+                            if op["how"] == "scale":
+                                Xc *= 1.7
+                            elif op["how"] == "shift":
+                                Xc += 0.9
+                            else:
+                                Xc[:] = Xc[::-1].copy()
+                            if Ac is not None:
+                                if is_kauri:
+                                    from sklearn.metrics import pairwise_kernels
+                                    Ac[:] = pairwise_kernels(np.asarray(Xc, dtype=np.float64), metric=cfg["affinity_src"])
+                                else:
+                                    c2 = dict(cfg)
+                                    c2["n"] = len(Xc)
+                                    Ac[:] = make_affinity(c2, np.asarray(Xc, dtype=np.float64))
+                            pristine[i] = (Xc.copy(), None if Ac is None else Ac.copy())
+                            pristine_bases[i] = bases[i].copy()
+                            res.fault("user_mutates_own_array")
                     elif kind == "other_fit":
                         # a SECOND estimator built from the very same parameter objects (GEMINI instance, groups list,
                         # kernel_params dict, feature mask, callable kernel) is fitted in between
@@ -613,7 +650,10 @@ def execute(record):
                                 status, iso = room.call("gemsim.scenarios.c12", "isolated_execution",
                                                         {"cfg": cfg, "params": params_at_call, "which": op.get("data", 0),
                                                          "kind": kind, "args": op.get("args", {}),
-                                                         "no_affinity": bool(op.get("no_affinity"))})
+                                                         "no_affinity": bool(op.get("no_affinity")),
+                                                         "X_values": np.array(X, copy=True, order="C"),
+                                                         "A_values": None if A is None else np.array(A, copy=True),
+                                                         "layout": layouts[op.get("data", 0)]})
                                 if status != "ok":
                                     raise HarnessError("clean room: " + str(iso))
                                 res.probe("clean_room_references")
